@@ -208,6 +208,80 @@ def run(chk):
                 chk.ob("C16-D5.fourier", fn.name, "imaginary block offset == num_points x num_outputs", ok, fn.loc(d), detail or ("offset %s, stride %s" % (src[:40], stride)))
     chk.floor("C16-D5.fourier", nfc, 1, "consumers of Fourier coefficient blocks")
 
+    # ------------------------------------------------------------------ D5b rows of interleaved complex data
+    chk.rule("C16-D5.complex", "where the tool reads a strip of a 2-D view as interleaved complex numbers (r[2*j], r[2*j+1], j < n), the stride of that view on the same branch is at least 2*n: "
+                               "every row starts where the previous one ends")
+    import sympy
+    from tsg.sym import to_sympy, NotClosedForm
+    ncx = 0
+    for f in db.all_functions(["Tasgrid/tasgridWrapper.cpp"]):
+        if f.cls != WR:
+            continue
+        loc = {v["did"]: v for v in f.locals().values() if "did" in v}
+        pnames = {p_["did"]: p_["name"] for p_ in f.params()}
+
+        def sym(n, assume):
+            def r(x):
+                if x.get("k") == "DeclRefExpr" and x.get("did") in pnames:
+                    nm = pnames[x["did"]]
+                    if nm in assume:
+                        return assume[nm]
+                    return sympy.Symbol(nm, integer=True, positive=True)
+                if x.get("k") == "DeclRefExpr" and x.get("did") in loc:
+                    ini = [c for c in loc[x["did"]].get("c", []) if isinstance(c, dict)]
+                    if ini and loc[x["did"]].get("t") in ("size_t", "int", "unsigned long"):
+                        return to_sympy(ini[0], r)
+                return None
+            return to_sympy(n, r)
+        for q in f.walk(into_lambda=False):
+            if q.get("k") != "ArraySubscriptExpr":
+                continue
+            b = strip(q["c"][0])
+            if b is None or b.get("k") != "DeclRefExpr" or b.get("did") not in loc:
+                continue
+            d = loc[b["did"]]
+            ini = [c for c in d.get("c", []) if isinstance(c, dict)]
+            gs = strip(ini[0]) if ini else None
+            if gs is None or gs.get("k") != "CXXMemberCallExpr" or not (callee(gs) or "").endswith("::getStrip"):
+                continue
+            recv = strip(call_object(gs))
+            if recv is None or recv.get("did") not in loc or "Wrapper2D" not in loc[recv["did"]].get("t", ""):
+                continue
+            wini = [c for c in loc[recv["did"]].get("c", []) if isinstance(c, dict)]
+            ctor = next((x for x in walk(wini[0]) if x.get("k") in ("CXXConstructExpr", "CXXTemporaryObjectExpr")), None) if wini else None
+            args = [c for c in (ctor or {}).get("c", []) if isinstance(c, dict)]
+            idx = strip(q["c"][1])
+            if not args or idx is None or "2 *" not in txt(idx):
+                continue
+            lp = next((a for a in f.ancestors(q) if a.get("k") == "ForStmt" and a.get("cond") is not None), None)
+            assume = {}
+            for e, tr in cond_edges_dominating(f, q):
+                e0 = strip(e)
+                if e0 is not None and e0.get("k") == "DeclRefExpr" and e0.get("did") in pnames and "bool" in next(p_["t"] for p_ in f.params() if p_["did"] == e0["did"]):
+                    assume[pnames[e0["did"]]] = sympy.true if tr else sympy.false
+            ncx += 1
+            chk.saw(f)
+            ok, detail = False, ""
+            try:
+                S = sym(args[0], assume)
+                if lp is not None and strip(lp["cond"]).get("k") == "BinaryOperator" and strip(lp["cond"]).get("op") == "<":
+                    lv = strip(strip(lp["cond"])["c"][0])
+                    N = sym(strip(lp["cond"])["c"][1], assume)
+                    J = sympy.Symbol("__j", integer=True, nonnegative=True)
+                    def ridx(x, lv=lv):
+                        return J if x.get("k") == "DeclRefExpr" and x.get("did") == lv.get("did") else None
+                    I = to_sympy(idx, lambda x: ridx(x))
+                    worst = sympy.simplify(S - (I.subs(J, N - 1) + 1))
+                else:
+                    I = sym(idx, assume)
+                    worst = sympy.simplify(S - (I + 1))
+                ok = bool(worst.is_nonnegative)
+                detail = "stride %s, largest index + 1 = stride - (%s)" % (S, worst)
+            except NotClosedForm as ex:
+                detail = "not a closed form: %s" % ex
+            chk.ob("C16-D5.complex", f.key, "`%s` @%d stays inside its row" % (txt(q), q.get("l", 0)), ok, f.loc(q), detail, "stride >= 2 * number of complex entries per row")
+    chk.floor("C16-D5.complex", ncx, 2, "interleaved complex subscripts in the wrapper")
+
     # ------------------------------------------------------------------ D6 modes
     chk.rule("C16-D6.modes", "a mode of the library that rejects other commands while it is active and that the tool can enter (dynamic construction: beginConstruction) can also be left "
                              "through the tool without destroying the grid (finishConstruction is called by some command handler)")
